@@ -275,6 +275,14 @@ def library(draw, lang=None, max_decls=8, with_python=None, with_lua=None, featu
             ns = dict(kind="namespace", name=names.fresh("space"), decls=[])
             for j in range(draw(st.integers(1, 2))):
                 ns["decls"].append(draw(function(lang, names, prefix=None, max_params=2)))
+            # namespaces.rst: namespaces nest to any depth
+            cur = ns
+            for _d in range(draw(st.sampled_from([0, 0, 1, 2]))):
+                inner = dict(kind="namespace", name=names.fresh("inner"), decls=[])
+                for j in range(draw(st.integers(1, 2))):
+                    inner["decls"].append(draw(function(lang, names, prefix=None, max_params=2)))
+                cur["decls"].append(inner)
+                cur = inner
             lib["decls"].append(ns)
         elif k == "overload":
             # tutorial.rst "Overloaded Functions": distinguishable by Fortran type/kind/rank
